@@ -8,7 +8,7 @@ PROPERTY = "C20"
 SHARDS = {"quick": 4, "thorough": 12}
 RULE = (
     "per base mesh the complete pair space: {reflexive, copy, twin from the same source, one longitude changed, "
-    "one latitude changed, two corners of one face swapped, one connectivity entry replaced, one extra node, one "
+    "one latitude changed, two corners of one face swapped, one connectivity entry replaced, one padding entry replaced by a node (and the reverse), one extra all-padding column, one extra node, one "
     "node fewer (unused), one extra face, one face fewer, same arrays read through another format (UGRID dataset), "
     "non-Grid operands} x both operand orders x {==, !=}. Oracle: equal iff same format and identical node_lon, "
     "node_lat, face_node_connectivity. Non-trivial = a twin differing in exactly one array from the base."
@@ -73,6 +73,24 @@ def run_case(ctx, case):
         if others:
             c3[f, j] = others[int(rng.integers(0, len(others)))]
             twins.append(("one_conn_entry", mk(lon, lat, c3), False))
+    # padding <-> node: a fill entry of one face replaced by a node index (triangle -> quad), and the reverse
+    sizes = [len(fc) for fc in m.faces]
+    short = [fi for fi, k in enumerate(sizes) if k < conn.shape[1]]
+    if short:
+        fi = short[int(rng.integers(0, len(short)))]
+        others = [v for v in range(len(lon)) if v not in m.faces[fi]]
+        if others:
+            c4 = conn.copy()
+            c4[fi, sizes[fi]] = others[int(rng.integers(0, len(others)))]
+            twins.append(("fill_to_node", mk(lon, lat, c4), False))
+    longf = [fi for fi, k in enumerate(sizes) if k >= 4]
+    if longf:
+        fi = longf[int(rng.integers(0, len(longf)))]
+        c5 = conn.copy()
+        c5[fi, sizes[fi] - 1] = ux.INT_FILL
+        twins.append(("node_to_fill", mk(lon, lat, c5), False))
+    # same faces stored in a wider table (one more all-fill column): the connectivity arrays are not identical
+    twins.append(("wider_padding", mk(lon, lat, m.padded(width=conn.shape[1] + 1)), None))  # same faces, other storage: either answer is admissible, only symmetry / negation are demanded
     twins.append(("extra_node", mk(np.append(lon, 12.5), np.append(lat, -3.25), conn), False))
     twins.append(("extra_face", mk(lon, lat, np.vstack([conn, conn[:1]])), False))
     if len(conn) > 1:
@@ -107,8 +125,9 @@ def run_case(ctx, case):
             if order == "twin_first" and not hasattr(t, "source_grid_spec"):
                 # reflected comparison with a non-Grid left operand: Python falls back to Grid.__eq__
                 pass
-            ctx.check("eq_matches_model", isinstance(eq, (bool, np.bool_)) and bool(eq) == want, dict(sig, order=order),
-                      {"eq": repr(eq), "want": want, "mesh": case["mesh"]})
+            if want is not None:
+                ctx.check("eq_matches_model", isinstance(eq, (bool, np.bool_)) and bool(eq) == want, dict(sig, order=order),
+                          {"eq": repr(eq), "want": want, "mesh": case["mesh"]})
             ctx.check("ne_is_negation", isinstance(ne, (bool, np.bool_)) and bool(ne) == (not bool(eq)), dict(sig, order=order), {"eq": repr(eq), "ne": repr(ne)})
         if hasattr(t, "source_grid_spec"):
             try:
@@ -116,6 +135,6 @@ def run_case(ctx, case):
             except Exception:
                 pass
         ctx.observe("twin_" + name)
-        if name in ("one_lon", "one_lat", "swap_in_face", "one_conn_entry"):
+        if name in ("one_lon", "one_lat", "swap_in_face", "one_conn_entry", "fill_to_node", "node_to_fill"):
             ctx.mark_nontrivial(name)
     ctx.sample({"mesh": case["mesh"], "twins": [t[0] for t in twins]})
